@@ -18,6 +18,10 @@ var (
 		Code:    dns.ExtendedErrorCodeOther,
 		Message: "Delegation loop detected",
 	}
+	errForeignAnswer = &dnsutil.EDEError{
+		Code:    dns.ExtendedErrorCodeInvalidData,
+		Message: "Answer owned outside the responding zone",
+	}
 	errNoReachableAuth = &dnsutil.EDEError{
 		Code:    dns.ExtendedErrorCodeNoReachableAuthority,
 		Message: "No reachable authoritative servers",
